@@ -36,6 +36,13 @@ from twisted.internet.base import DelayedCall
 from twisted.internet.task import Clock, LoopingCall
 from twisted.python.failure import Failure
 
+# unhandled-error reports of Deferreds the scripted histories deliberately leave failed must not reach stderr
+try:
+    from twisted.logger import globalLogBeginner
+    globalLogBeginner.beginLoggingTo([lambda ev: None], redirectStandardIO=False, discardBuffer=True)
+except Exception:      # already begun by somebody else: harmless
+    pass
+
 NKINDS = 11
 K_REBALANCE, K_CNA, K_NOTCOORD, K_ILLGEN, K_INVGROUP, K_UNKMEMBER, K_INCONSISTENT, K_TIMEOUT, K_OTHERKAFKA, K_CANCELLED, K_NONKAFKA = range(NKINDS)
 KIND_NAMES = ["RebalanceInProgress", "CoordinatorNotAvailable", "NotCoordinator", "IllegalGeneration", "InvalidGroupId",
@@ -369,6 +376,8 @@ class Impl(object):
         self.problems = []         # things outside the canonical alphabet (reported, never silently dropped)
         self.nstart = 0
         self.nstop = 0
+        self.start_fired = []      # per start() call: has its Deferred fired?
+        self.delivered = False     # did the last event reach a pending Deferred / armed call / live consumer?
         self.clock = RecClock(self)
         self.client = StandInClient(self)
         self.group_id = "grp"
@@ -422,10 +431,13 @@ class Impl(object):
 
     def _watch_start(self, d, idx):
         def cb(r):
+            self.start_fired[idx] = True
             self.out(O_STARTD, idx, 0)
 
         def eb(f):
+            self.start_fired[idx] = True
             self.out(O_STARTD, idx, 100 + classify_exc(f.value))
+        self.start_fired.append(False)
         d.addCallbacks(cb, eb)
 
     def _watch_stop(self, d, idx):
@@ -452,8 +464,10 @@ class Impl(object):
         if res >= 100:
             if res - 100 >= NKINDS:
                 return
+            self.delivered = True
             r.d.errback(Failure(make_exc(res - 100, r.rid)))
         else:
+            self.delivered = True
             r.d.callback(ok_value)
 
     def apply(self, ev):
@@ -461,6 +475,7 @@ class Impl(object):
                                   _LeaveGroupResponse, _SyncGroupResponse)
         from afkak.kafkacodec import KafkaCodec
         self.cur = [-1]
+        self.delivered = False
         c = ev[0]
         try:
             if c == E_START:
@@ -522,6 +537,7 @@ class Impl(object):
             elif c == E_TICK:
                 live = [dc for dc in self.hb_calls if dc.active()]
                 if live:
+                    self.delivered = True
                     self.clock.fire(live[0])
                     if len(live) > 1:
                         self.problems.append("%d heartbeat calls armed at once" % len(live))
@@ -531,6 +547,7 @@ class Impl(object):
                     self._fire(r, ev[2], _HeartbeatResponse(0))
             elif c == E_FIRE:
                 if 0 <= ev[1] < len(self.join_timers) and self.join_timers[ev[1]].active():
+                    self.delivered = True
                     self.clock.fire(self.join_timers[ev[1]])
             elif c == E_LEAVE:
                 r = self._req(ev[1], "leave")
@@ -538,9 +555,11 @@ class Impl(object):
                     self._fire(r, ev[2], _LeaveGroupResponse(0))
             elif c == E_CFAIL:
                 if 0 <= ev[1] < len(self.consumers) and 0 <= ev[2] < NKINDS and self.consumers[ev[1]].can_fail_start():
+                    self.delivered = True
                     self.consumers[ev[1]].drv_start_fails(make_exc(ev[2], ev[1]))
             elif c == E_CSHUT:
                 if 0 <= ev[1] < len(self.consumers) and ev[2] in (0, 1) and self.consumers[ev[1]].shutdown_pending():
+                    self.delivered = True
                     self.consumers[ev[1]].drv_shutdown_done(ev[2] == 0)
         except BaseException as e:   # an exception reaching the caller of a reply / timer / API call
             self.out(O_API, 2)
@@ -564,6 +583,17 @@ class Impl(object):
         r = self.reqs[rid]
         return r.info[1] if r.kind == "join" else 0
 
+    def obs(self):
+        """the observation vector Model.GroupObs.obs computes from the model state (first 10 entries): only harness-owned
+        objects and the public attributes generation_id / member_id named by the property"""
+        pend = self.pending_requests()
+        nseq = sum(1 for _, k in pend if k in ("lookup", "meta", "join", "parts", "sync"))
+        return [1 if (self.start_fired and not self.start_fired[-1]) else 0,
+                nseq, len(self.active_join_timers()), 1 if self.heartbeat_armed() else 0,
+                sum(1 for _, k in pend if k == "hb"), sum(1 for _, k in pend if k == "leave"),
+                len(self.running_consumers()), sum(1 for c in self.consumers if c.shutdown_pending()),
+                gen_int(self.obj.generation_id), mem_int(self.obj.member_id)]
+
     def running_consumers(self):
         """stub consumers whose start Deferred exists (not stopped): cid list"""
         return [c.cid for c in self.consumers if c._start_d is not None]
@@ -580,6 +610,26 @@ def run_impl(line, delays=None, use_defaults=False, collect=None):
             if collect is not None:
                 collect(im, ev)
         return im.trace, im.problems
+    finally:
+        im.close()
+
+
+def run_impl_steps(line, delays=None, use_defaults=False):
+    """Run a case line on the real implementation; returns (trace, problems, steps) with one record per event:
+    {"ev", "out" (list of output tuples), "delivered", "obs", "hb_before", "timers_before"}"""
+    kind, evs = parse_events(line)
+    logging.getLogger("afkak").setLevel(logging.CRITICAL + 1)
+    im = Impl(kind, delays, use_defaults)
+    steps = []
+    try:
+        for ev in evs:
+            hb_before, tb = im.heartbeat_armed(), len(im.active_join_timers())
+            out = im.apply(ev)
+            steps.append({"ev": ev, "out": split_trace(out)[0] if out else [], "delivered": im.delivered, "obs": im.obs(),
+                          "hb_before": hb_before, "timers_before": tb, "running": sorted(im.running_consumers()),
+                          "consumers": [(c.cid, gen_int(c.generation), mem_int(c.member), c.topic, c.partition) for c in im.consumers
+                                        if c._start_d is not None]})
+        return im.trace, im.problems, steps
     finally:
         im.close()
 
@@ -760,3 +810,137 @@ def gen_junk(rnd, im):
     if c == E_CFAIL:
         return (c, rnd.randrange(ncons), rnd.randrange(NKINDS))
     return (c, rnd.randrange(ncons), rnd.randint(0, 1))
+
+
+# ------------------------------------------------------------------ shared by C16.py / C17.py
+OBS_LEN = 10          # entries of Model.GroupObs.obs that the harness can observe; the model prints 5 more (model-only)
+OBS_MODEL_LEN = 15
+
+
+def flatten_obs(steps):
+    o = []
+    for st in steps:
+        o += [-1] + list(st["obs"])
+    return o
+
+
+def observable_part(model_obs):
+    """drop the model-only tail of each per-step block of a kind 2/3 model output"""
+    out, i = [], 0
+    while i < len(model_obs):
+        if model_obs[i] != -1 or i + 1 + OBS_MODEL_LEN > len(model_obs):
+            return [-98]
+        out += model_obs[i:i + 1 + OBS_LEN]
+        i += 1 + OBS_MODEL_LEN
+    return out
+
+
+def corpus_cases():
+    """hand-written histories: each theorem's non-vacuity example, each repaired defect, the residual finding"""
+    R = 100 + K_REBALANCE
+    stable = [(E_START,), (E_LOOKUP, 0, 0), (E_META, 1, 0), (E_JOIN, 2, 0, 1, 1, 0), (E_SYNC, 3, 0, [(0, 0)])]
+    rejoin = stable + [(E_TICK,), (E_HBREPLY, 4, R), (E_FIRE, 0)]
+    cs = [
+        (0, [(E_START,), (E_LOOKUP, 0, 0), (E_META, 1, 100 + K_NONKAFKA)]),                                   # F-C17-2
+        (1, [(E_START,), (E_LOOKUP, 0, 0), (E_META, 1, 100 + K_OTHERKAFKA), (E_FIRE, 0)]),                    # F-C17-1 repaired
+        (1, [(E_START,), (E_LOOKUP, 0, 0), (E_META, 1, 0), (E_JOIN, 2, 0, 5, 7, 1), (E_PARTS, 3, 0),
+             (E_SYNC, 4, 0, [(0, 1), (1, 0)])]),                                                               # leader, stable
+        (1, rejoin + [(E_STOP,), (E_LOOKUP, 5, 0), (E_META, 6, 0), (E_CSHUT, 0, 0), (E_LEAVE, 7, 0)]),         # F-C16-2 repaired
+        (0, [(E_START,), (E_LOOKUP, 0, 0), (E_META, 1, 0), (E_JOIN, 2, 0, 1, 1, 1), (E_STOP,), (E_PARTS, 3, 0),
+             (E_LEAVE, 4, 0)]),                                                                                # F-C16-3a repaired
+        (1, rejoin + [(E_LOOKUP, 5, 0), (E_META, 6, 0), (E_STOP,), (E_LEAVE, 7, 0), (E_JOIN, 8, 0, 2, 1, 0)]), # F-C16-3b repaired
+        (0, [(E_START,), (E_LOOKUP, 0, 0), (E_META, 1, 0), (E_JOIN, 2, 0, 1, 1, 0), (E_STOP,),
+             (E_SYNC, 3, 100 + K_ILLGEN, []), (E_LEAVE, 4, 0), (E_FIRE, 0)]),                                  # F-C16-4 repaired
+        (1, stable + [(E_STOP,), (E_TICK,), (E_HBREPLY, 4, R), (E_FIRE, 0), (E_CSHUT, 0, 0), (E_LEAVE, 5, 0)]),  # F-C16-1 repaired
+        (1, stable + [(E_CFAIL, 0, K_ILLGEN), (E_FIRE, 0), (E_LOOKUP, 4, 0), (E_META, 5, 0), (E_JOIN, 6, 0, 2, 1, 0),
+                      (E_SYNC, 7, 0, [(0, 0), (0, 1)])]),                                                     # eviction, rejoin
+        (1, stable + [(E_TICK,), (E_HBREPLY, 4, 100 + K_NONKAFKA), (E_LEAVE, 5, 100 + K_TIMEOUT)]),            # fatal surfaces
+        (1, rejoin + [(E_LOOKUP, 5, 0), (E_META, 6, 0), (E_CSHUT, 0, 1), (E_JOIN, 7, 0, 2, 1, 0)]),            # commit rejected at rejoin
+        (1, stable + [(E_STOP,), (E_STOP,), (E_CSHUT, 0, 0), (E_LEAVE, 4, 0), (E_START,)]),                    # double stop, restart
+        (0, [(E_STOP,), (E_START,), (E_START,), (E_LOOKUP, 0, 1), (E_FIRE, 0), (E_LOOKUP, 1, 100 + K_TIMEOUT), (E_FIRE, 1)]),
+    ]
+    return cs
+
+
+def doc_delay(k):
+    return 1 if k in (K_REBALANCE, K_CNA, K_NOTCOORD, K_ILLGEN, K_INVGROUP, K_UNKMEMBER) else 2
+
+
+def shrink_events(kind, evs, bad, budget=400):
+    """greedy delta debugging on the event list; bad(kind, evs) -> bool"""
+    evs = list(evs)
+    n = 0
+    changed = True
+    while changed and n < budget:
+        changed = False
+        for i in range(len(evs) - 1, -1, -1):
+            cand = evs[:i] + evs[i + 1:]
+            n += 1
+            try:
+                if bad(kind, cand):
+                    evs, changed = cand, True
+                    break
+            except Exception:
+                pass
+            if n >= budget:
+                break
+    return evs
+
+
+def enumerate_small_scope(kind, depth, alphabet_hook=None, limit=200000):
+    """All event sequences up to `depth` over the events ENABLED in the implementation's current state (pending requests x
+    {ok, RebalanceInProgress, non-Kafka}, armed timers, tick, stop, consumer events), run on the implementation.
+    Yields event lists (each prefix once).  Bounded validation of the tie, never the proof."""
+    count = [0]
+
+    def enabled(im, stopped):
+        evs = []
+        for rid, k in im.pending_requests():
+            if k == "lookup":
+                evs += [(E_LOOKUP, rid, 0), (E_LOOKUP, rid, 1), (E_LOOKUP, rid, 100 + K_NONKAFKA)]
+            elif k == "meta":
+                evs += [(E_META, rid, 0), (E_META, rid, 100 + K_TIMEOUT)]
+            elif k == "join":
+                evs += [(E_JOIN, rid, 0, 1 + rid, 1, 0), (E_JOIN, rid, 0, 1 + rid, 1, 1), (E_JOIN, rid, 100 + K_UNKMEMBER, 0, 0, 0)]
+            elif k == "parts":
+                evs += [(E_PARTS, rid, 0), (E_PARTS, rid, 100 + K_CNA)]
+            elif k == "sync":
+                evs += [(E_SYNC, rid, 0, [(0, 0)]), (E_SYNC, rid, 100 + K_REBALANCE, []), (E_SYNC, rid, 100 + K_NONKAFKA, [])]
+            elif k == "hb":
+                evs += [(E_HBREPLY, rid, 0), (E_HBREPLY, rid, 100 + K_ILLGEN)]
+            elif k == "leave":
+                evs += [(E_LEAVE, rid, 0)]
+        for t in im.active_join_timers():
+            evs.append((E_FIRE, t))
+        if im.heartbeat_armed():
+            evs.append((E_TICK,))
+        for c in im.consumers:
+            if c.shutdown_pending():
+                evs.append((E_CSHUT, c.cid, 0))
+            elif c.can_fail_start():
+                evs.append((E_CFAIL, c.cid, K_REBALANCE))
+        if not stopped:
+            evs.append((E_STOP,))
+        return evs
+
+    def rec(prefix, stopped):
+        if count[0] >= limit:
+            return
+        logging.getLogger("afkak").setLevel(logging.CRITICAL + 1)
+        im = Impl(kind)
+        try:
+            for ev in prefix:
+                im.apply(ev)
+            nxt = enabled(im, stopped)
+        finally:
+            im.close()
+        count[0] += 1
+        if len(prefix) >= depth or not nxt:
+            yield list(prefix)          # maximal: its trace covers every prefix
+            return
+        for ev in nxt:
+            for x in rec(prefix + [ev], stopped or ev[0] == E_STOP):
+                yield x
+
+    for x in rec([(E_START,)], False):
+        yield x
